@@ -441,6 +441,8 @@ static void make_ufd(int k) {
         int fd = R->k.k_open_plain(sim::OWN_USER);
         if (k < (int)W->ufds.size()) W->ufds[k] = {fd, -1};
         else W->ufds.push_back({fd, -1});
+        W->ufd_ids.resize(W->ufds.size(), 0);
+        W->ufd_ids[k] = R->k.get(fd)->id;
         return;
     }
     int p[2];
@@ -449,6 +451,13 @@ static void make_ufd(int k) {
     R->k.k_fcntl(p[1], F_SETFL, O_NONBLOCK, sim::OWN_USER);
     if (k < (int)W->ufds.size()) W->ufds[k] = {p[0], p[1]};
     else W->ufds.push_back({p[0], p[1]});
+    W->ufd_ids.resize(W->ufds.size(), 0);
+    W->ufd_ids[k] = R->k.get(p[0])->id;
+}
+// the descriptor of user slot k is still the one we opened (its number may have been closed by an auto-closing source and reused)
+static bool ufd_valid(int k) {
+    int fd = W->ufds[k].first;
+    return R->k.is_open(fd) && R->k.fds[fd].owner == sim::OWN_USER && k < (int)W->ufd_ids.size() && R->k.get(fd)->id == W->ufd_ids[k];
 }
 
 void world_init(World &w, const Program &p) {
@@ -974,7 +983,7 @@ void exec_op(const Op &op, bool in_cb, int cb_slot) {
                 k = m * 3 + (int)(((op.arg(1) % 3) + 3) % 3);
                 while ((int)W->ufds.size() <= k) make_ufd((int)W->ufds.size());
             }
-            if (!R->k.is_open(W->ufds[k].first) || R->k.fds[W->ufds[k].first].owner != sim::OWN_USER) {   // previous descriptor was auto-closed: use a fresh one
+            if (!ufd_valid(k)) {   // previous descriptor was auto-closed: use a fresh one
                 if (W->ufds[k].second >= 0 && R->k.is_open(W->ufds[k].second) && R->k.fds[W->ufds[k].second].owner == sim::OWN_USER) R->k.k_close(W->ufds[k].second, sim::OWN_USER);
                 make_ufd(k);
             }
